@@ -170,6 +170,13 @@ func predConcurrent(c Case) (r Result) {
 		r.Got = showOut(seq)
 		return
 	}
+	// the concurrent phase uses a cold compiled expression (never searched before):
+	// lazily initialised state is then first touched by overlapping calls
+	if rapidBool(c, "cold", true) {
+		if fresh, err, pan := libCompile(expr); err == nil && pan == nil {
+			comp = fresh
+		}
+	}
 	shared := ref.DeepCopy(orig)
 	snap := ref.DeepCopy(orig)
 	type res struct {
@@ -637,4 +644,13 @@ func TestC13(t *testing.T) {
 		}
 		statsFor("C13").Record(c, res)
 	})
+}
+
+
+// rapidBool reads an optional boolean from the case's Extra (default when absent).
+func rapidBool(c Case, key string, def bool) bool {
+	if v, ok := c.Extra[key].(bool); ok {
+		return v
+	}
+	return def
 }
